@@ -276,7 +276,9 @@ class SegmentationImage:
         """
         if self.nlabels == 0:
             return 0
-        return np.max(self.labels)
+        # a Python int, so that ``max_label + 1`` cannot overflow the
+        # dtype of the segmentation array
+        return int(np.max(self.labels))
 
     def get_index(self, label):
         """
@@ -778,7 +780,7 @@ class SegmentationImage:
         if relabel:
             labels = np.unique(relabel_map[relabel_map != 0])
             if len(labels) != 0:
-                map2 = np.zeros(max(labels) + 1, dtype=dtype)
+                map2 = np.zeros(int(max(labels)) + 1, dtype=dtype)
                 map2[labels] = np.arange(len(labels), dtype=dtype) + 1
                 relabel_map = map2[relabel_map]
 
